@@ -53,9 +53,8 @@ hcpu_sha_force(void)
 }
 
 void
-hcpu_sha_transform(uint32_t state[8], const uint8_t block[64])
+hcpu_sha_transform(uint32_t state[8], const uint8_t block[64], uint32_t W[64])
 {
-	uint32_t W[64];
 	uint32_t S[8];
 
 	SHA256_Transform(state, block, W, S);
